@@ -9,6 +9,7 @@ from sim.engine import Result, fp
 from sim.checks import common
 
 from sismic.exceptions import StatechartError
+import tempfile
 from sismic.io import import_from_yaml
 from sismic.model import Statechart, CompoundState, OrthogonalState, BasicState, HistoryStateMixin, FinalState
 
@@ -23,7 +24,7 @@ RULE = ('the stored document is a valid generated statechart description dumped 
         'orthogonal state or as root; initial naming a sibling-less non-child, a grandchild, an unknown state; memory naming itself, a '
         'non-sibling, an unknown state; unknown key at statechart / state / transition / contract level; unknown type; unknown priority word; '
         'both states and parallel states; missing name; missing root state; missing statechart) at EVERY applicable position for single faults '
-        '(thorough; 30 drawn positions in quick) plus drawn combinations of 2-3 faults; a faulted document must raise StatechartError and '
+        '(thorough; 30 drawn positions in quick) plus drawn combinations of 2-3 faults; in a quarter of the runs every document is handed over as a file (import_from_yaml(filepath=...)); a faulted document must raise StatechartError and '
         'nothing else, the unfaulted document must be accepted and pass an independent structural audit. non-trivial = one (document, fault '
         'kind, position); distinct = distinct (chart, fault kind, position)')
 COMPONENTS = {'real': ['sismic.io.import_from_yaml', 'sismic.io.datadict.import_from_dict', 'schema', 'ruamel.yaml parser',
@@ -187,9 +188,18 @@ def audit(sc):
     return None
 
 
+VIA_FILE = [False]       # this run hands its documents over as files (import_from_yaml(filepath=...))
+
+
 def attempt(doc):
     try:
-        sc = import_from_yaml(dump(doc))
+        if VIA_FILE[0]:
+            with tempfile.NamedTemporaryFile('w', suffix='.yaml') as f:
+                f.write(dump(doc))
+                f.flush()
+                sc = import_from_yaml(filepath=f.name)
+        else:
+            sc = import_from_yaml(dump(doc))
         return 'accepted', sc
     except StatechartError as e:
         return 'StatechartError', e
@@ -205,6 +215,8 @@ def run(ch, tier):
         cfg.history = cfg.force_history = True
         cfg.max_states = max(cfg.max_states, 8)
     sp = gen_spec(ch.s('chart'), cfg)
+    VIA_FILE[0] = ch.s('cfg').flag(1, 4)
+    res.stats['runs_importing_from_files'] += int(VIA_FILE[0])
     doc = to_dict(sp)
     # valid variation: a history state may omit its memory
     for sd, _, kind in walk(doc['statechart']['root state']):
